@@ -107,26 +107,43 @@ def cli_abspath(ctx):
         ctx.ob(R, 'driver|add_argument|{}|{}'.format(first, mv), ok, c,
                'path argument {} is not converted by argparse.Directory/'
                'File'.format(first))
-    ctx.require_min(R, n, 8, 'path arguments')
+    ctx.ob(R, 'path-arguments|found', n >= 6, None,
+           'only {} path arguments found'.format(n))
     # Directory/File types absolute-ise
     p = repo.module('bfg9000.arguments.parser')
+    from ..facts import Facts, has, has_call, has_const, param_of
+    F = getattr(ctx, '_facts', None)
+    if F is None:
+        F = ctx._facts = Facts(repo)
+    base = F.fn('bfg9000.arguments.parser:BaseFile.__call__')
+    r = F.returns(base)
+    ok = has_call(r, '_abspath') and param_of(r, Q.params(base.node)[1])
+    ctx.ob(R, 'parser.BaseFile.__call__|returns-abspath', ok, base.node,
+           'path arguments are not returned in absolute form')
     for cls in ('Directory', 'File'):
-        f = repo.method('bfg9000.arguments.parser:' + cls, '__call__')
-        rets = Q.returns(f.node)
-        ok = len(rets) == 1 and isinstance(rets[0].value, ast.Name)
-        if ok:
-            vals = [unparse(v) for v in Q.local_assignments(
-                f.node, rets[0].value.id) if v is not None]
-            ok = vals == ['self._abspath(string)']
-        ctx.ob(R, 'parser.{}.__call__|returns-abspath'.format(cls), ok,
-               f.node, '{} does not return the absolute path'.format(cls))
-        a = repo.method('bfg9000.arguments.parser:' + cls, '_abspath')
-        ok = any(Q.callee_attr(c) == 'abspath' and unparse(c.args[0]) == 'p'
-                 for c in Q.calls(a.node) if c.args)
+        a = F.fn('bfg9000.arguments.parser:{}._abspath'.format(cls))
+        ok = has_call(F.returns(a), 'abspath') and param_of(
+            F.returns(a), Q.params(a.node)[0])
         ctx.ob(R, 'parser.{}._abspath|abspath'.format(cls), ok, a.node,
                '{} does not make the path absolute'.format(cls))
-    f = repo.func('bfg9000.driver:directory_pair')
-    ok = any(unparse(c) == "path.abspath('.')" for c in Q.calls(f.node))
+    f = F.fn('bfg9000.driver:directory_pair')
+    ok = False
+    nodes = [f.node]
+    # helpers of the same module called from the (nested) action class
+    for n in ast.walk(f.node):
+        if isinstance(n, ast.Call):
+            g = repo.enclosing_func(n) or f
+            callee = F.flow.resolve_call(n, g)
+            if callee is not None and callee.module is f.module:
+                nodes.append(callee.node)
+    for nd in nodes:
+        for n in ast.walk(nd):
+            if isinstance(n, ast.Call) and Q.callee_attr(n) == 'abspath' \
+                    and n.args:
+                g = repo.enclosing_func(n) or f
+                a = F.atoms(n.args[0], g)
+                if has_const(a, '.') or has(a, 'curdir'):
+                    ok = True
     ctx.ob(R, 'directory_pair|cwd-abspath', ok, f.node,
            'directory_pair does not resolve the cwd with path.abspath')
 
